@@ -76,8 +76,11 @@ def gen_probe(h, rng, k):
             dmin = [min(a['demand'][i] for a in grp) for i in range(3)]
             spec.update(affinity=key[0], limits=dict(grp[0]['limits']), lease=key[1], traits=key[2],
                         demand=[x + rng.choice([0, 0, 1]) for x in dmin])
-    if rng.random() < 0.6:
+    if rng.random() < 0.55:
         spec['group'] = None
+    elif H.groups and rng.random() < 0.8:
+        # a group that (by the harness' count) should still have a free identity
+        spec['group'] = rng.choice(sorted(H.groups))
     spec['priority'] = rng.choice([1, 10, 50, 100])
     rank = rng.choice([0, 100, 100, 250])
     return spec, rank
@@ -174,3 +177,48 @@ def run_probe_child(h, spec, rank):
     if not data:
         return None
     return json.loads(data.decode())
+
+
+def identity_exhaustion_probe(h, group, free, label):
+    """In a forked child: submit as many zero-demand instances of `group` as the
+    harness counts free identities; each fits any up server of `label`, so every
+    one of them must be placed by the next cycle."""
+    r, w = os.pipe()
+    pid = os.fork()
+    if pid == 0:
+        try:
+            os.close(r)
+            drv = h.drv
+            root = drv.cell.partitions[label].allocation
+            alloc = root.get_sub_alloc('probe')
+            alloc.update([0, 0, 0], 100, 0)
+            drv.alloc_objs[(label, ('probe',))] = alloc
+            drv.H.allocs[(label, ('probe',))] = dict(reserved=[0, 0, 0], rank=100, adj=0, maxutil=None, traits=0)
+            names = []
+            for i in range(free):
+                spec = drv.gen_app_spec()
+                spec.update(name='probe.id#%010d' % (9500 + i), demand=[0, 0, 0], traits=0, lease=0,
+                            affinity='probe-id', limits={}, group=group, once=False, retention=0,
+                            alloc=(label, ('probe',)), priority=50)
+                drv.op_add_app(spec)
+                names.append(spec['name'])
+            out = {}
+            try:
+                drv.cell.schedule()
+                out = dict(placed=[n for n in names if drv.cell.apps[n].server], names=names,
+                           available=sorted(drv.cell.identity_groups[group].available))
+            except BaseException as err:   # noqa
+                out = dict(error='%s: %s' % (type(err).__name__, err))
+            os.write(w, json.dumps(out).encode())
+        finally:
+            os._exit(0)
+    os.close(w)
+    data = b''
+    while True:
+        chunk = os.read(r, 65536)
+        if not chunk:
+            break
+        data += chunk
+    os.close(r)
+    os.waitpid(pid, 0)
+    return json.loads(data.decode()) if data else None
